@@ -75,6 +75,10 @@ Definition spec_contents : list (str * str * sty) := [
   (s!"State", s!"m.room.history_visibility", SObj [req s!"history_visibility" SStr]);
   (s!"State", s!"m.room.name", SObj [req s!"name" SStr]);
   (s!"State", s!"m.room.pinned_events", SObj [req s!"pinned" (SArr (SId 3))]);
+  (s!"State", s!"m.room.power_levels",
+     SObj [opt s!"ban" SIntAny; opt s!"events" (SMap 0 SIntAny); opt s!"events_default" SIntAny; opt s!"invite" SIntAny;
+           opt s!"kick" SIntAny; opt s!"notifications" (SObj [opt s!"room" SIntAny]); opt s!"redact" SIntAny;
+           opt s!"state_default" SIntAny; opt s!"users" (SMap 1 SIntAny); opt s!"users_default" SIntAny]);
   (s!"State", s!"m.room.server_acl",
      SObj [opt s!"allow_ip_literals" SBool; opt s!"allow" (SArr SStr); opt s!"deny" (SArr SStr)]);
   (s!"State", s!"m.room.third_party_invite",
